@@ -34,6 +34,51 @@ func unmarshalClosures(p *Program) []*FuncInfo {
 
 // zeroes reports whether body contains a zeroing of the destination and whether it is conditional on options.
 func zeroes(p *Program, f *FuncInfo, body ast.Node) (found bool, guardFlags uint64) {
+	found, guardFlags = zeroesIn(p, f, body)
+	// the zeroing may live in a private helper called from the branch (extract-method)
+	for _, g := range helpersCalledIn(p, f, body) {
+		fz, fg := zeroesIn(p, g, g.Body())
+		found = found || fz
+		guardFlags |= fg
+	}
+	return
+}
+
+// helpersCalledIn lists the private helpers (unexported, same package, with a body, or a local
+// closure variable) called inside node n of function f, transitively to depth 2.
+func helpersCalledIn(p *Program, f *FuncInfo, n ast.Node) []*FuncInfo {
+	inl := p.InlineAny(f)
+	var out []*FuncInfo
+	seen := map[*FuncInfo]bool{}
+	var visit func(g *FuncInfo, n ast.Node, depth int)
+	visit = func(g *FuncInfo, n ast.Node, depth int) {
+		ast.Inspect(n, func(x ast.Node) bool {
+			if _, ok := x.(*ast.FuncLit); ok {
+				return false
+			}
+			if call, ok := x.(*ast.CallExpr); ok {
+				var h *FuncInfo
+				if g == f {
+					h = inl(call)
+				} else {
+					h = p.InlineAny(g)(call)
+				}
+				if h != nil && !seen[h] && h != f {
+					seen[h] = true
+					out = append(out, h)
+					if depth < 2 {
+						visit(h, h.Body(), depth+1)
+					}
+				}
+			}
+			return true
+		})
+	}
+	visit(f, n, 1)
+	return out
+}
+
+func zeroesIn(p *Program, f *FuncInfo, body ast.Node) (found bool, guardFlags uint64) {
 	info := f.Info()
 	ast.Inspect(body, func(n ast.Node) bool {
 		switch x := n.(type) {
@@ -159,6 +204,18 @@ func ruleNULL1(c *Ctx) {
 			for _, r := range findAll[*ast.ReturnStmt](b.body) {
 				if len(r.Results) == 1 && IsNilIdent(info, r.Results[0]) {
 					retNil = true
+				}
+				// `return helper(..)` where the helper can return nil
+				if len(r.Results) == 1 {
+					if call, ok := ast.Unparen(r.Results[0]).(*ast.CallExpr); ok {
+						if h := p.InlineAny(f)(call); h != nil {
+							for _, hr := range findAll[*ast.ReturnStmt](h.Body()) {
+								if len(hr.Results) == 1 && IsNilIdent(h.Info(), hr.Results[0]) {
+									retNil = true
+								}
+							}
+						}
+					}
 				}
 			}
 			if strings.HasPrefix(f.Name, "json.makeInvalidArshaler") {
@@ -346,34 +403,38 @@ func ruleMERGE1(c *Ctx) {
 	if f := p.Func("json.makeBytesArshaler:unmarshal"); f == nil {
 		c.Undecide("json.makeBytesArshaler:unmarshal", "closure missing")
 	} else {
-		info := f.Info()
 		found, uncond := false, false
-		for _, call := range findAll[*ast.CallExpr](f.Body()) {
-			if !IsBuiltin(info, call, "clear") {
-				continue
-			}
-			found = true
-			var fl uint64
-			for _, cc := range enclosingConds(p, f, call) {
-				fl |= flagsRead(info, cc.cond)
-				// also: not inside a length-mismatch error branch
-				if be, ok := ast.Unparen(cc.cond).(*ast.BinaryExpr); ok && be.Op == token.LAND {
-					fl |= flagsRead(info, be)
+		// the clearing may sit in a private helper of the closure (extract-method)
+		outer := f
+		for _, f := range p.CalleeClosure(outer, 2) {
+			info := f.Info()
+			for _, call := range findAll[*ast.CallExpr](f.Body()) {
+				if !IsBuiltin(info, call, "clear") {
+					continue
 				}
-			}
-			inErr := false
-			for _, cc := range enclosingConds(p, f, call) {
-				ast.Inspect(cc.cond, func(nd ast.Node) bool {
-					if be, ok := nd.(*ast.BinaryExpr); ok && be.Op == token.NEQ {
-						if c1, ok := ast.Unparen(be.X).(*ast.CallExpr); ok && IsBuiltin(info, c1, "len") {
-							inErr = true
-						}
+				found = true
+				var fl uint64
+				for _, cc := range enclosingConds(p, f, call) {
+					fl |= flagsRead(info, cc.cond)
+					// also: not inside a length-mismatch error branch
+					if be, ok := ast.Unparen(cc.cond).(*ast.BinaryExpr); ok && be.Op == token.LAND {
+						fl |= flagsRead(info, be)
 					}
-					return true
-				})
-			}
-			if fl == 0 && !inErr {
-				uncond = true
+				}
+				inErr := false
+				for _, cc := range enclosingConds(p, f, call) {
+					ast.Inspect(cc.cond, func(nd ast.Node) bool {
+						if be, ok := nd.(*ast.BinaryExpr); ok && be.Op == token.NEQ {
+							if c1, ok := ast.Unparen(be.X).(*ast.CallExpr); ok && IsBuiltin(info, c1, "len") {
+								inErr = true
+							}
+						}
+						return true
+					})
+				}
+				if fl == 0 && !inErr {
+					uncond = true
+				}
 			}
 		}
 		c.Oblige("bytearray:zero-tail", f.Pos(), found && uncond, "the bytes of a [N]byte beyond the decoded data are not cleared unconditionally (stale bytes of the previous value would survive a shorter input)")
